@@ -102,7 +102,7 @@ def detect_scratch(wt, patch, ids, tier="quick"):
     tag = os.path.basename(wt.rstrip("/"))
     hdir = f"/tmp/mh-{tag}"
     vdir = f"/tmp/mv-{tag}"
-    sh(f"rm -rf {hdir} {vdir}; mkdir -p {vdir}; cp -r /verif/harness {hdir}; cp /verif/KNOWN_FINDINGS.txt {vdir}/; cp -r /verif/replays {vdir}/replays; rm -f {vdir}/replays/*/fail-*")
+    sh(f"rm -rf {hdir} {vdir}; mkdir -p {vdir}; cp -r /verif/harness {hdir}; cp /verif/KNOWN_FINDINGS.txt {vdir}/; cp -r /verif/replays {vdir}/replays; cp -r /verif/py {vdir}/py; rm -f {vdir}/replays/*/fail-*")
     ct = open(f"{hdir}/Cargo.toml").read().replace('path = "/repo"', f'path = "{wt}"')
     open(f"{hdir}/Cargo.toml", "w").write(ct)
     cfg = open(f"{hdir}/.cargo/config.toml").read().replace('../target/harness', '/tmp/mh-target')
@@ -120,7 +120,7 @@ def detect_scratch(wt, patch, ids, tier="quick"):
             t0 = time.time()
             rc, out = sh(f"SV_VERIF_DIR={vdir} SV_REPO={wt} RUST_BACKTRACE=0 /tmp/mh-target/release/check {pid} --tier {tier} 2>&1", cwd=vdir, timeout=3600)
             viol = [l for l in out.splitlines() if l.startswith("VIOLATION")]
-            sig = [l for l in out.splitlines() if l.startswith("[sv] " + pid + " /")]
+            sig = [l for l in out.splitlines() if l.startswith("[sv] " + pid + " /") or l.startswith("[sv] inconclusive") or l.startswith("[sv] corpus replay")]
             results[pid] = {"exit": rc, "violation": bool(viol), "detail": (sig[:1] or [""])[0][:500], "wall_s": round(time.time() - t0, 1)}
     finally:
         sh("git checkout -- .", cwd=wt)
